@@ -86,7 +86,7 @@ CHECKS = {
         "quick": {"runs": 640, "per_proc": 40},
         "thorough": {"runs": 60000, "per_proc": 200},
         "hang_is_violation": True,
-        "proc_timeout": 300,
+        "proc_timeout": 90,
         "rule": "one run = victim with two real neighbours (one datagram link, one framed link) and two scripted peers (datagram session, "
                 "framed byte stream); 4-40 inputs of 20 kinds x parameters, each before or after the handshake; after each input: ping a->b "
                 "through the victim answered and the victim's status readable; distinct_nontrivial counts distinct sets of input kinds",
